@@ -103,6 +103,14 @@ class C09(common.Spec):
                 def _event_put(self, **_d):
                     self.set_output(1)
 
+            class IA(edzed.SBlock):
+                """calls abort() from its synchronous initialisation (inside the simulation task) and
+                returns normally"""
+                def init_regular(self):
+                    self.set_output(0)
+                    log.append(['src', 'abort', 88])
+                    self.circuit.abort(Tagged(88))
+
             class PR(edzed.AddonPersistence, edzed.SBlock):
                 def get_state(self):
                     return self.output
@@ -137,7 +145,9 @@ class C09(common.Spec):
                 PR('pr', persistent=True, on_output=edzed.Event('si', 'put'))
             elif sie == 'via_async':
                 AS('as_', on_output=edzed.Event('si', 'put'))
-            if sie:
+            if sie == 'abort_in_init':
+                IA('ia')
+            elif sie:
                 SI('si')
             if case.get('async_init_error'):
                 AI('ai', initdef=1)
@@ -352,7 +362,7 @@ def gen_case(rng):
     return dict(events=events, sups=sups, tail_us=rng.choice([0, 150_000]),
                 async_init_error=rng.random() < 0.15, restore_error=rng.random() < 0.15,
                 stop_error=rng.random() < 0.15,
-                sync_init_error=rng.choice([None] * 12 + ['direct', 'via_restore', 'via_async']))
+                sync_init_error=rng.choice([None] * 12 + ['direct', 'via_restore', 'via_async', 'abort_in_init']))
 
 
 def check(run):
